@@ -16,12 +16,27 @@ NA = {
     "C14": "area preservation for arbitrary regions: same float map as C13, integrated (DESIGN.md section 9)",
 }
 NOT_BUILT = "not built yet (planned, DESIGN.md section 8); nothing is claimed until its check exists"
+NA["C12"] = ("only the vertex-count / closure / option-default conjunct and the latitude range are within reach of contracts (list-length reasoning over opaque vertices); "
+             "simple, counter-clockwise, no 180-degree jumps, span < 180 and corner identity are float geometry of the projected ring. The reachable conjunct was not built, so nothing is claimed (DESIGN.md sections 8, 9)")
 
 PYVC_NOTE = ("Trusted: the AST->SMT encoding of the accepted Python subset (DESIGN.md 3.1; differential self-check is testing), "
              "import-time tables read from the live module, z3/cvc5, no termination proof. Python ints are fixed-width bit-vectors "
              "with a proved no-wrap obligation per operation, so machine arithmetic is not assumed mathematical.")
 
 CHECKS = {
+
+    "C02": dict(
+        engine="ivc+pyvc",
+        technique="partial claim by contract-based verification: range contracts of to_spherical/to_lonlat/cell_to_lonlat decided by interval evaluation of the AST (ivc), quintant<->segment inverse by z3 over the real origin functions (pyvc); the containment conjuncts are not claimed",
+        category="proof",
+        text=("IN PART. Decided for every cell id: the value returned by cell_to_lonlat has longitude in [-180, 180] and latitude in [-90, 90] (1e-12 deg rounding slack at the "
+              "poles) - from the ranges of atan2/acos in to_spherical, the data flow of cell_to_lonlat, and interval evaluation of to_lonlat and of the wrap in cell_to_lonlat, "
+              "independent of the projection's float geometry; and the discrete skeleton of the id -> centre -> id chain: segment_to_quintant(quintant_to_segment(q, face)) = (q, same "
+              "orientation) on all 12 faces (with C05 for the id code and C18 for the curve). NOT decided (float geometry, cf. C01): the centre lies strictly inside the cell's ring and "
+              "lonlat_to_cell of it returns the cell."),
+        design_ref="DESIGN.md section 8 / C02",
+        note="Trusted: atan2/acos ranges and 1-ulp libm, mpmath.iv, the straight-line AST evaluator; that cell_to_lonlat returns at all (no exception inside the projection) is not claimed.",
+    ),
     "C05": dict(
         engine="pyvc",
         technique="contract-based deductive verification: VCs generated from the AST of serialize/deserialize/get_resolution on every run, discharged by z3 (cvc5 fall-back) for all positions S at once per resolution; counter-models replayed natively",
@@ -91,6 +106,21 @@ CHECKS = {
               "the last 1e-10 rad, Taylor boxes grade towards them."),
         design_ref="DESIGN.md sections 4, 8 / C15",
         note="Trusted: libm sin/cos within 1 ulp, odd/even exactly; mpmath.iv outward rounding; the straight-line AST evaluator (any other construct => undecided). 'Strictly increasing' is proved for the real-arithmetic function (derivative >= 0.995); adjacent binary64 inputs closer than the rounding error are not distinguished.",
+    ),
+
+    "C18": dict(
+        engine="pyvc",
+        technique="contract-based deductive verification of the curve functions: digit pipeline (shift / un-shift) proved the identity for every level and orientation class by symbolic execution with ghost assertions at loop boundaries (bit-vectors); inductive step of the digit-recovery loop and the base case through get_pentagon_vertices/get_center/face_to_ij proved over real arithmetic; composition over the iterations covered by a bounded native round trip (labelled)",
+        category="proof",
+        text=("A: for every level h = 1..28 and each (invert_j, flip_ij) class, the statements of _s_to_anchor that extract and shift the digits followed by the statements of _ij_to_s "
+              "that un-shift and recombine them are the identity on all S < 4^h (one symbolic index per case; per-iteration ghost assertions keep every VC local). B: for every flip "
+              "state and digit, over the real quaternary_to_kj / kj_to_ij / quaternary_to_flips / ij_to_quaternary: a remainder inside s*Tri(f') by margin 1/10 gives a position inside "
+              "2s*Tri(f) by the same margin and ij_to_quaternary recovers the digit, for all scales of levels <= 28. C: for all six orientations, levels and inner (flips, k), the real "
+              "wrappers, get_pentagon_vertices, get_center and face_to_ij map a symbolic anchor offset to offset + d with d inside its half-unit triangle by margin 1/10. The induction "
+              "that composes B over the h iterations is NOT mechanised: bounded native round trip (levels 1..5 exhaustive, directed/random to level 28), labelled bounded. The "
+              "prefix/nesting clause is not claimed."),
+        design_ref="DESIGN.md section 8 / C18",
+        note=PYVC_NOTE + " A6: parts B and C treat binary64 as exact real arithmetic (margin 1/10 proved).",
     ),
     "C19": dict(
         engine="pyvc",
